@@ -187,6 +187,10 @@ impl InterpValidate for Interp2D {
         if x_grid_len == 0 || y_grid_len == 0 {
             return Err("Supplied grid coordinates cannot be empty".to_string());
         }
+        // Linear interpolation needs a cell (two grid points) in each dimension
+        if x_grid_len < 2 || y_grid_len < 2 {
+            return Err("Supplied grid coordinates must have at least two points".to_string());
+        }
         // Check that grid points are monotonically increasing
         if !(self.x.windows(2).all(|w| w[0] < w[1]) && self.y.windows(2).all(|w| w[0] < w[1])) {
             return Err("Supplied coordinates must be sorted and non-repeating".to_string());
@@ -215,6 +219,10 @@ impl InterpValidate for Interp3D {
         // Check that each grid dimension has elements
         if x_grid_len == 0 || y_grid_len == 0 || z_grid_len == 0 {
             return Err("Supplied grid coordinates cannot be empty".to_string());
+        }
+        // Linear interpolation needs a cell (two grid points) in each dimension
+        if x_grid_len < 2 || y_grid_len < 2 || z_grid_len < 2 {
+            return Err("Supplied grid coordinates must have at least two points".to_string());
         }
         // Check that grid points are monotonically increasing
         if !(self.x.windows(2).all(|w| w[0] < w[1])
